@@ -1,6 +1,6 @@
 SPECIFICATION Spec
 CONSTANTS
   ManyLimit = 12
-  Stride = 6
+  Stride = 8
 INVARIANTS Emit
 CHECK_DEADLOCK FALSE
